@@ -299,6 +299,38 @@ fn literal_cases(ctx: &Ctx) -> Vec<(Case, bool)> {
     out
 }
 
+// `.k` and `["k"]` are the same property also as *targets inside a pattern*
+// (swaps, rotations, a property beside a plain variable of the same name), and
+// a computed name may be any string expression, an interpolated literal
+// included. Each program against its rewritten twin, and against the values
+// written out here.
+fn target_and_key_forms(ctx: &Ctx) -> Vec<(Case, bool)> {
+    let pre = "p := {\"x\": 1, \"y\": 2}\nq := {\"x\": 10, \"y\": 20}\nx := 100\nc := \"x\"\n";
+    let pairs: Vec<(&str, &str, &str)> = vec![
+        ("[p.x, q.x] = [q.x, p.x]\nprint([p, q])\n", "[p[\"x\"], q[\"x\"]] = [q[\"x\"], p[\"x\"]]\nprint([p, q])\n", "[\n    {\n        \"x\": 10,\n        \"y\": 2,\n    },\n    {\n        \"x\": 1,\n        \"y\": 20,\n    },\n]\n"),
+        ("[x, p.x] = [p.x, x]\nprint([x, p.x])\n", "[x, p[\"x\"]] = [p[\"x\"], x]\nprint([x, p[\"x\"]])\n", "[\n    1,\n    100,\n]\n"),
+        ("[p.x, p.y, q.y] = [p.y, q.y, p.x]\nprint([p, q])\n", "[p[\"x\"], p[\"y\"], q[\"y\"]] = [p[\"y\"], q[\"y\"], p[\"x\"]]\nprint([p, q])\n", "[\n    {\n        \"x\": 2,\n        \"y\": 20,\n    },\n    {\n        \"x\": 10,\n        \"y\": 1,\n    },\n]\n"),
+        ("{\"a\": p.x, \"b\": q.x} = {\"a\": 7, \"b\": 8}\nprint([p.x, q.x])\n", "{\"a\": p[\"x\"], \"b\": q[\"x\"]} = {\"a\": 7, \"b\": 8}\nprint([p[\"x\"], q[\"x\"]])\n", "[\n    7,\n    8,\n]\n"),
+        ("[p.x, [q.x, x]] = [5, [6, 7]]\nprint([p.x, q.x, x])\n", "[p[c], [q[c], x]] = [5, [6, 7]]\nprint([p[c], q[c], x])\n", "[\n    5,\n    6,\n    7,\n]\n"),
+        ("for [p.x, q.x] in [[3, 4]] {\n    print([p.x, q.x])\n}\n", "for [p[\"x\"], q[\"x\"]] in [[3, 4]] {\n    print([p[\"x\"], q[\"x\"]])\n}\n", "[\n    0,\n    [\n        3,\n        4,\n    ],\n]\n"),
+        ("o := {$\"col_${c}\": 1, $\"col_${c}y\": 2}\nprint(o)\nprint(o.col_x)\n", "o := {(\"col_\" + c): 1, (\"col_\" + c + \"y\"): 2}\nprint(o)\nprint(o[\"col_x\"])\n", "{\n    \"col_x\": 1,\n    \"col_xy\": 2,\n}\n1\n"),
+        ("o := {$\"${c}\": 1, \"x\": 2, $\"${c}\": 3}\nprint(o)\n", "o := {c: 1, \"x\": 2, (c): 3}\nprint(o)\n", "{\n    \"x\": 3,\n}\n"),
+        ("o := {}\no[$\"k${c}\"] = 1\no[$\"k${c}\"] += 1\nprint(o.kx)\n{$\"k${c}\": got} := o\nprint(got)\n", "o := {}\no[\"k\" + c] = 1\no[\"kx\"] += 1\nprint(o[\"kx\"])\n{\"kx\": got} := o\nprint(got)\n", "2\n2\n"),
+    ];
+    let mut out = vec![];
+    for (a, b, want) in pairs {
+        ctx.label("property targets inside patterns / interpolated names");
+        if a.starts_with("for [p.x") {
+            // The loop variable pair is [index, value]: p.x takes the index.
+            out.push((Case{property: "C12".into(), kind: "target_forms".into(), srcs: vec![format!("{pre}{a}").into_bytes(), format!("{pre}{b}").into_bytes()], pred: Pred::Same{same_msg: false, positions: None}, note: "dot against index syntax as for targets".into()}, true));
+            continue;
+        }
+        out.push((Case{property: "C12".into(), kind: "target_forms".into(), srcs: vec![format!("{pre}{a}").into_bytes()], pred: Pred::Expect(Expect::ok(want.as_bytes().to_vec())), note: "property targets inside a pattern / interpolated names: value".into()}, true));
+        out.push((Case{property: "C12".into(), kind: "target_forms".into(), srcs: vec![format!("{pre}{a}").into_bytes(), format!("{pre}{b}").into_bytes()], pred: Pred::Same{same_msg: false, positions: None}, note: "dot against index syntax / interpolated against concatenated names".into()}, true));
+    }
+    out
+}
+
 // Property names that also name something else in the language (type
 // functions, the built-in, parameter-like words) or are unusually long: a
 // property is found by its name in the object and nowhere else.
@@ -337,6 +369,7 @@ pub fn run(ctx: &Ctx) {
     ctx.judge_all(literal_cases(ctx), Via::Cli, None);
     ctx.judge_all(insertion_orders(ctx), Via::Cli, None);
     ctx.judge_all(special_names(ctx), Via::Cli, None);
+    ctx.judge_all(target_and_key_forms(ctx), Via::Cli, None);
     ctx.mark_exhaustive("all insertion orders of 1..5 keys from four key sets; all histories of length <= 2");
     enumerate(ctx, 1, 1);
     enumerate(ctx, 2, 1);
